@@ -100,6 +100,22 @@ def action(h, cls='proj.Point', d=3, shape=(), tshape=(), complex_=False):
         h.eq("image = data @ matrix", (A @ X).proj_data, X.proj_data @ Am)
 
 
+def used_operands(h, cls='proj.Point', d=2):
+    """multi-step: operands whose inverse was already taken are composed / conjugated, then inverted (a cached or stale
+    inverse carried along by copy() would show here)"""
+    X, T = _make(h, cls, d, ())
+    Am, Bm = _inv_mats(h, ['A', 'B'], d)
+    A, B = T(Am), T(Bm)
+    Ainv, Binv = A.inv(), B.inv()
+    C = A @ B
+    _cmp(h, "inverse(product of used operands)", C.inv() @ (C @ X), X)
+    D = Binv @ A @ B
+    _cmp(h, "inverse(conjugate)", D.inv() @ (D @ X), X)
+    E = Binv @ Ainv
+    _cmp(h, "inverse(product of inverses)", E.inv() @ X, C @ X, exact=False)
+    _cmp(h, "double inverse", A.inv().inv() @ X, A @ X)
+
+
 def rep_boundary(h, d=3, hyp=False, maxlen=2):
     """rep[w] @ p equals the product of the generator matrices, in word order, applied to p as a column vector"""
     import itertools
